@@ -37,6 +37,12 @@ Cases:
     the link in its own or in the complement direction, in all 24 arrival orders of the four lines: when the path
     arrives first the link is a placeholder (virtual line) in the segments' collections until the L line replaces it;
     followed by the same take-out / put-back cycle (the path goes away with its link);
+  * single, taken out before its segments arrive (exhaustive, tag `late`): every L/C/G orientation pair and E lines
+    of the three types, between two segments (the S line of the first, of the second or of both still missing) and
+    as a self-edge: the edge arrives while the segments `late` are placeholders, it is taken out again (Gfa.rm /
+    line.disconnect) and only then the missing S lines arrive (the version of the Gfa is stated, so that no line waits
+    in the queue): the real segment must not inherit the line from its placeholder - every collection of every
+    segment is empty; then the edge is put back as in `cycle`;
   * multi (random): 2-6 parallel / mixed edges on 3 segments in a shuffled arrival order; about 40% are GFA1 graphs
     (L and C lines only; one third of the links are self-links), most of them with 1-2 paths over their links
     shuffled among the other lines;
@@ -46,6 +52,11 @@ Cases:
     dovetails join some of the other segments to each other (the hub is then a cut segment only if a branch is left
     out), in 10% a hairpin sits on the busy end of the hub or a loop on a branch; 0-2 lines which do not connect
     (containment, internal alignment, gap) come on top.  Every 4th goes through the editing steps like any other graph;
+  * late (random, about 20% of the multi / fork / edit graphs, tag `late`): the S lines of 1-2 of the segments are
+    held back to the very end; when everything else has arrived (the edges, gaps and paths which mention those
+    segments are attached to placeholders) 1-3 of the edge / gap lines, mostly ones which mention a held-back
+    segment, are taken out again (Gfa.rm / line.disconnect; a path over a removed link goes with it), and only then
+    the S lines arrive.  The collections are those of the lines which are still in the graph;
   * edit (random, every 4th): a multi graph followed by 1-4 steps through the public editing routes, the whole
     comparison being repeated after every step: an edge instance is taken out (Gfa.rm or line.disconnect), its
     reference fields are changed (other intervals / orientations / segments; given as strings or as
@@ -86,9 +97,13 @@ RULE = ("exhaustive: every (orientation, interval kind)^2 E line (7 kinds x 2 or
         "segments and as a self-edge, every L/C/G orientation pair, each in all 6 arrival orders of its three lines, "
         "optionally followed by a rename, then taken out (rm/disconnect: all collections empty) and put back; every "
         "L orientation pair (two segments / self-link) with a path over the link in all 24 arrival orders (the link "
-        "is a placeholder when the path comes first), then the same cycle; random: graphs with several "
+        "is a placeholder when the path comes first), then the same cycle; every L/C/G orientation pair and E lines of "
+        "each type taken out again (rm/disconnect) while the S line of one or both of their segments is still missing: "
+        "after the S lines have arrived all collections are empty, then put back; random: graphs with several "
         "parallel/mixed edges on 3 segments (GFA2, or GFA1 with paths over the links), about 15% of them forks on 3-4 segments "
-        "(all dovetails of one segment on one end, leading to 2-3 segments which are joined elsewhere or not), every 4th "
+        "(all dovetails of one segment on one end, leading to 2-3 segments which are joined elsewhere or not), in about 20% "
+        "the S lines of 1-2 segments arrive last, after 1-3 of the edge/gap lines (mostly ones attached to those "
+        "placeholder segments) were taken out again by rm/disconnect, every 4th "
         "followed by 1-4 editing steps (edge taken out by rm/disconnect, reference fields changed, put back by "
         "add_line/connect or as a fresh line; edge removed; edge added, a link also after a path which needs it; "
         "segment renamed) with the comparison after "
@@ -170,14 +185,26 @@ EX = _ex_space()
 EXP = [(second, o1, o2, pdir) for second in ("B", "A") for o1 in "+-" for o2 in "+-" for pdir in ("fwd", "rev")]
 OFF = ["rm", "disconnect"]
 BACK = ["fresh", "add_line", "connect"]
+# an edge which is taken out again BEFORE the S line(s) of its segment(s) arrive (`late`): every L/C/G orientation pair
+# and E lines of the three types (dovetail on either end, containment either way, internal alignment), between two
+# segments (late: the first, the second or both, in turn) and as a self-edge
+EXL = ([(rt, second, o1, 0, o2, 0) for rt in "LCG" for second in ("B", "A") for o1 in "+-" for o2 in "+-"] +
+       [("E", second, o1, k1, o2, k2) for second in ("B", "A") for o1 in "+-" for o2 in "+-"
+        for k1, k2 in ((4, 1), (1, 4), (6, 3), (2, 6), (3, 3))])
+LATE = [["A"], ["B"], ["A", "B"]]
 
 
 def n_exhaustive(tier):
-    return len(EX) * (6 if tier == "thorough" else 2) + len(EXP) * 24
+    return len(EX) * (6 if tier == "thorough" else 2) + len(EXP) * 24 + len(EXL)
 
 
 def exhaustive_case(i, tier):
     nper = 6 if tier == "thorough" else 2
+    if i >= len(EX) * nper + len(EXP) * 24:
+        i -= len(EX) * nper + len(EXP) * 24
+        rt, second, o1, k1, o2, k2 = EXL[i]
+        return {"kind": "single", "rt": rt, "second": second, "o1": o1, "k1": k1, "o2": o2, "k2": k2, "perm": 0,
+                "late": ["A"] if second == "A" else LATE[i % 3], "cycle": [OFF[(i // 3) % 2], BACK[(i // 2) % 3]]}
     if i >= len(EX) * nper:
         i -= len(EX) * nper
         second, o1, o2, pdir = EXP[i // 24]
@@ -272,6 +299,18 @@ def gen_case(rng, tier, i):
                 e[0] = rng.choice("LLC")
         links = [j for j, e in enumerate(edges) if e[0] == "L"]
         case["paths"] = [[rng.choice(links), rng.choice(["fwd", "rev"])] for _ in range(rng.choice([0, 1, 1, 2]))] if links else []
+    if rng.random() < 0.2:
+        # ---- some S lines arrive last, and before they do 1-3 of the lines which are there already are taken out
+        # again (mostly lines which mention a segment that is still a placeholder)
+        segs_all = case.get("segs", "ABC")
+        late = rng.sample(list(segs_all), rng.choice([1, 1, 2]))
+        near = [j for j, e in enumerate(edges) if e[1] in late or e[4] in late]
+        rm = []
+        for _ in range(rng.randint(1, 3)):
+            j = rng.choice(near) if near and rng.random() < 0.8 else rng.randrange(len(edges))
+            if j not in [x[0] for x in rm]:
+                rm.append([j, rng.choice(OFF)])
+        case["late"] = {"segs": sorted(late), "rm": rm}
     if i % 4 != 3:
         return case
     # ---- editing history: the specs of the edges as they will be after each step are tracked by the oracle
@@ -318,8 +357,11 @@ def nontrivial(case):
 
 def tags(case):
     if case["kind"] == "single":
-        return ["single:" + case["rt"], "self" if case["second"] == "A" else "pair"] + (["path"] if case.get("path") else [])
+        return (["single:" + case["rt"], "self" if case["second"] == "A" else "pair"] + (["path"] if case.get("path") else []) +
+                (["late"] if case.get("late") else []))
     t = [case["kind"], "n%d" % len(case["edges"]), "gfa%d" % _version(case)]
+    if case.get("late"):
+        t.append("late")
     if case.get("shape"):
         t.append(case["shape"]); t.append("segs%d" % len(case.get("segs", "ABC")))
     if case.get("paths"):
@@ -464,9 +506,34 @@ def build(case):
                 lines.append(path_line("p%d" % n, case["edges"][j], pdir))
         r = lib.Rng(case["shuffle"]); order = list(lines); r.shuffle(order)
     g = gfapy.Gfa(vlevel=1)
-    for l in order:
+    late = case.get("late") if case["kind"] != "single" else None
+    if not late:
+        for l in order:
+            g.add_line(l)
+        return g, edges, order
+    # ---- the S lines of late["segs"] arrive last; before they do, the edge lines late["rm"] are taken out again
+    # (Gfa.rm / line.disconnect): they are no lines of the graph any more, whatever arrives afterwards
+    last = [seg_line(n, v) for n in late["segs"]]
+    first = [l for l in order if l not in last]
+    for l in first:
         g.add_line(l)
-    return g, edges, order
+    done = list(first)
+    for j, how in late["rm"]:
+        e = [x for x in edges if x["idx"] == j]
+        if not e:
+            continue          # left out: the same GFA1 line as an earlier one
+        cand = [l for l in g.lines if str(l) == e[0]["txt"]]
+        if len(cand) != 1:
+            continue          # cannot happen: compare() reports it (edge-lines-wrong) if the line is not there at the end
+        if how == "rm":
+            g.rm(cand[0])
+        else:
+            cand[0].disconnect()
+        edges.remove(e[0])
+        done.append("<%s %s>" % (how, e[0]["txt"]))
+    for l in last:
+        g.add_line(l)
+    return g, edges, done + last
 
 
 def compare(g, edges, nm, ctx, graph=True):
@@ -716,9 +783,65 @@ def single_cycle(g, e, nm, cycle, order):
     return compare(g, [e], nm, ctx, graph=False)
 
 
+def single_late(case):
+    """the only edge arrives while the segments case["late"] have no S line yet (they are placeholders), it is taken out
+    again (Gfa.rm / line.disconnect) and only then the missing S lines arrive: no collection of any segment lists
+    the line; it is put back: the filing is that of its text"""
+    gfapy = lib.import_gfapy()
+    v = _version(case)
+    a, b = "A", case["second"]
+    spec = [case["rt"], a, case["o1"], case["k1"], b, case["o2"], case["k2"]]
+    e = {"spec": spec, "idx": None, "txt": edge_line(*spec)[0]}
+    nm = {n: n for n in sorted({a, b})}
+    off, back = case["cycle"]
+    first = [seg_line(n, v) for n in sorted(nm) if n not in case["late"]]
+    last = [seg_line(n, v) for n in sorted(nm) if n in case["late"]]
+    order = first + [e["txt"], "<%s of the edge>" % off] + last
+    # the version is stated: an L or C line which comes before every S line would wait in the queue of the Gfa
+    g = gfapy.Gfa(vlevel=1, version="gfa%d" % v)
+    try:
+        for l in first + [e["txt"]]:
+            g.add_line(l)
+    except gfapy.Error as err:
+        return ["build-raises: %s %s" % (err.__class__.__name__, case)]
+    cand = [l for l in g.lines if str(l) == e["txt"]]
+    if len(cand) != 1:
+        return ["edge-lines-wrong: %r is %d times in the Gfa (order %r)" % (e["txt"], len(cand), order[:len(first) + 1])]
+    ln = cand[0]
+    try:
+        if off == "rm":
+            g.rm(ln)
+        else:
+            ln.disconnect()
+    except gfapy.Error:
+        return []         # a refused step: not this property's business
+    try:
+        for l in last:
+            g.add_line(l)
+    except gfapy.Error as err:
+        return ["build-raises: %s after the edge was taken out (order %r)" % (err.__class__.__name__, order)]
+    ctx = "order %r" % (order,)
+    F = compare(g, [], nm, ctx)
+    if F:
+        return F
+    ctx += ", put back (%s)" % back
+    try:
+        if back == "fresh":
+            g.add_line(e["txt"])
+        elif back == "add_line":
+            g.add_line(ln)
+        else:
+            ln.connect(g)
+    except gfapy.Error:
+        return []
+    return compare(g, [e], nm, ctx)
+
+
 def oracle(case):
     gfapy = lib.import_gfapy()
     F = []
+    if case["kind"] == "single" and case.get("late"):
+        return single_late(case)
     try:
         g, edges, order = build(case)
     except gfapy.Error as e:
